@@ -253,7 +253,31 @@ func Palette(t *rapid.T, label string, valid bool) ops.Palette {
 // ViewBox draws a finite valid viewBox (min <= max, possibly degenerate when
 // allowDegenerate).
 func ViewBox(t *rapid.T, label string, allowDegenerate bool) [4]float32 {
-	switch rapid.IntRange(0, 6).Draw(t, label+".class") {
+	switch rapid.IntRange(0, 8).Draw(t, label+".class") {
+	case 7:
+		// the default box with one or two members changed (the others exactly the default)
+		vb := [4]float32{-32, -32, 32, 32}
+		for n := rapid.IntRange(1, 2).Draw(t, label+".nchanged"); n > 0; n-- {
+			i := rapid.IntRange(0, 3).Draw(t, label+".member")
+			d := float32(rapid.IntRange(1, 31).Draw(t, label+".by"))
+			if i < 2 {
+				vb[i] = -32 + d*float32(rapid.SampledFrom([]int{1, -1}).Draw(t, label+".dir"))
+			} else {
+				vb[i] = 32 + d*float32(rapid.SampledFrom([]int{1, -1}).Draw(t, label+".dir"))
+			}
+		}
+		return vb
+	case 8:
+		// the default size at another origin, moved along one axis or both
+		dx, dy := float32(rapid.IntRange(-40, 40).Draw(t, label+".dx")), float32(rapid.IntRange(-40, 40).Draw(t, label+".dy"))
+		if rapid.Bool().Draw(t, label+".oneaxis") {
+			if rapid.Bool().Draw(t, label+".x") {
+				dy = 0
+			} else {
+				dx = 0
+			}
+		}
+		return [4]float32{-32 + dx, -32 + dy, 32 + dx, 32 + dy}
 	case 0:
 		return [4]float32{-32, -32, 32, 32}
 	case 1:
